@@ -185,50 +185,29 @@ pub fn filter_above_empty_grouping_set(q: &Query) -> bool {
     found
 }
 
-/// a window call in a query that reads a generate_series / range of at most one value
-/// (known finding `window-over-single-value-series`)
-pub fn window_over_single_value_series(q: &Query) -> bool {
+/// a scalar subquery nested inside a scalar subquery
+pub fn nested_scalar_subquery(q: &Query) -> bool {
+    let mut found = false;
+    refsql::visit_exprs(q, &mut |e| {
+        if let Expr::Scalar(sq) = e {
+            refsql::visit_exprs(sq, &mut |x| {
+                if matches!(x, Expr::Scalar(_)) {
+                    found = true
+                }
+            });
+        }
+    });
+    found
+}
+
+pub fn has_window(q: &Query) -> bool {
     let mut has_win = false;
     refsql::visit_exprs(q, &mut |e| {
         if matches!(e, Expr::Win(_)) {
             has_win = true
         }
     });
-    if !has_win {
-        return false;
-    }
-    fn tref(t: &TableRef, found: &mut bool) {
-        match t {
-            TableRef::Series { start, stop, step, exclusive, .. } => {
-                let n = if *step > 0 { (stop - start + if *exclusive { 0 } else { 1 } + step - 1).max(0) / step } else { 2 };
-                if n <= 1 {
-                    *found = true
-                }
-            }
-            TableRef::Join { left, right, .. } => {
-                tref(left, found);
-                tref(right, found)
-            }
-            _ => {}
-        }
-    }
-    fn set(e: &SetExpr, found: &mut bool) {
-        match e {
-            SetExpr::Select(s) => {
-                if let Some(t) = &s.from {
-                    tref(t, found)
-                }
-            }
-            SetExpr::SetOp { left, right, .. } => {
-                set(left, found);
-                set(right, found)
-            }
-            SetExpr::Query(_) => {}
-        }
-    }
-    let mut found = false;
-    refsql::visit_queries(q, &mut |qq| set(&qq.body, &mut found));
-    found
+    has_win
 }
 
 /// LEFT / RIGHT join whose ON has a conjunct `<literal> = <column>` (known finding `outer-join-on-literal-eq-column`)
@@ -647,15 +626,12 @@ impl Property for C01 {
         if filter_above_empty_grouping_set(q) {
             return Some("filter-below-empty-grouping-set".into());
         }
-        if window_over_single_value_series(q) {
-            return Some("window-over-single-value-series".into());
-        }
         if pred_subquery_correlated_global_agg(q) {
             return Some("pred-subquery-correlated-global-aggregate".into());
         }
         // outcome-keyed signatures: construct present AND the engine answers with exactly that internal error
-        let (bt, cw, nu) = (has_bool_test(q), case_then_in_when(q), has_nested_union(q));
-        if bt || cw || nu {
+        let (bt, cw, nu, wi, ns) = (has_bool_test(q), case_then_in_when(q), has_nested_union(q), has_window(q), nested_scalar_subquery(q));
+        if bt || cw || nu || wi || ns {
             let out = engine_run(case, &refsql::to_sql(q));
             if nullability_mismatch(&out) {
                 if bt {
@@ -664,6 +640,15 @@ impl Property for C01 {
                 if cw {
                     return Some("nullability-mismatch:case-then-in-when".into());
                 }
+            }
+            if ns && matches!(&out.outcome, DfOutcome::Error(e) if e.stage == vf_df::Stage::Optimize && e.message.contains("scalar_subquery_to_join") && e.message.contains("No field named")) {
+                return Some("nested-correlated-scalar-subquery".into());
+            }
+            if wi && matches!(&out.outcome, DfOutcome::Error(e) if e.class == ErrClass::Execution && e.message.contains("Expects PARTITION BY expression to be ordered")) {
+                return Some("window-partition-by-not-ordered".into());
+            }
+            if nu && matches!(&out.outcome, DfOutcome::Error(e) if e.class == ErrClass::SchemaError && e.stage == vf_df::Stage::Optimize && e.message.contains("No field named")) {
+                return Some("nested-union-empty-first-branch".into());
             }
             if nu && matches!(&out.outcome, DfOutcome::Error(e) if e.class == ErrClass::Internal && e.message.contains("Physical input schema should be the same") && e.message.contains("field name at index")) {
                 return Some("nested-union-empty-first-branch".into());
@@ -688,8 +673,13 @@ impl Property for C01 {
         let base = |r: CaseResult| r.labels(feats.iter().cloned());
         match (&reference, &out.outcome) {
             (_, DfOutcome::Timeout) => base(CaseResult::inconclusive("engine timeout")),
-            (_, DfOutcome::Error(e)) if e.class.is_clean_rejection() => base(CaseResult::discard(discard_key(e.class, &e.message))).label("engine-rejected"),
-            (_, DfOutcome::Error(e)) if matches!(e.class, ErrClass::Internal | ErrClass::Other | ErrClass::ArrowOther | ErrClass::External | ErrClass::Io | ErrClass::ResourcesExhausted | ErrClass::Configuration) => {
+            (_, DfOutcome::Error(e)) if e.class.is_clean_rejection() && !(e.class == ErrClass::SchemaError && e.stage == vf_df::Stage::Optimize) => {
+                if std::env::var_os("C01_DEBUG").is_some() {
+                    eprintln!("DISCARD {:?} {:?}: {}\n   sql: {sql}", e.class, e.stage, e.message);
+                }
+                base(CaseResult::discard(discard_key(e.class, &e.message))).label("engine-rejected")
+            }
+            (_, DfOutcome::Error(e)) if matches!(e.class, ErrClass::Internal | ErrClass::SchemaError | ErrClass::Other | ErrClass::ArrowOther | ErrClass::External | ErrClass::Io | ErrClass::ResourcesExhausted | ErrClass::Configuration) => {
                 // overflow inside the engine where the reference overflowed too is not a finding
                 if matches!(&reference, Err(RefError::Overflow)) && e.class == ErrClass::ArrowOther {
                     return base(CaseResult::discard("reference overflow (engine raised an arithmetic error)"));
